@@ -11,6 +11,7 @@
   (which system calls fail, and how far a failing write got); every cut `k`; every crash outcome.
 -/
 import Lungo.Proofs.AtomicWritePhases
+import Lungo.Proofs.AtomicSearchExpected
 import Lungo.Model.CommitStore
 namespace Lungo.C05
 open Lungo.FS Lungo.AtomicWrite
@@ -328,5 +329,200 @@ theorem neg_no_dir_fsync :
 /-- without the initial remove a stale temp file makes even a fault-free run fail (`rerun_after_crash` fails) -/
 theorem neg_no_remove :
     (interp noRemoveSteps 0 1 exChunks noFaults exS).err = true := by decide
+
+/-! ### Counterexample search on ANY step list (driver op `fs.search`, run on the list regenerated from /repo)
+
+  `AtomicSearch.search P` explores fault plan × cut × post-crash image of the interpreter on `P.steps` and
+  returns the first violation of atomicity / durability / failed-run / re-run (see `Model/AtomicSearch.lean`).
+  The theorems above are about the EXPECTED protocol; these say that what the search reports about the
+  CURRENT protocol is real in the model. -/
+
+open Lungo.AtomicSearch in
+/-- **search_ce_sound.** A counterexample returned by the search on the step list `P.steps` is real: its
+    post-crash state `ce.st` is reachable — it is the process-kill image or a power-loss outcome (`Crash`,
+    via `crashImages_sound`) of the interpreter on `P.steps` after the first `ce.k` system calls under the
+    fault plan `ce.fault` — and it violates the clause named by `ce.kind`:
+    * `notOldOrNew`: `path` loads as neither the old nor the new content (mixture / truncated / absent);
+    * `ackedLost`: the run had returned success, yet `path` does not load as the new content;
+    * `failedChanged`: the run had returned an error (no crash), yet `path` shows neither the old content nor —
+      provided a rename onto `path` had succeeded — the new one;
+    * `rerunFails`: a complete fault-free run of the same protocol started on `ce.st` returns an error or does
+      not leave the new content at `path`. -/
+theorem search_ce_sound (P : Params) (ce : CE) (h : search P = some ce) :
+    let r := interpUpTo P.steps P.path P.tmp P.chunks (faultsOf ce.fault) ce.k P.s0
+    (ce.st = kill r.1.fs ∨ Crash r.1.fs ce.st) ∧
+    (ce.kind = .notOldOrNew → load ce.st P.path ≠ P.old ∧ load ce.st P.path ≠ some P.chunks.flatten) ∧
+    (ce.kind = .ackedLost → r.2 = true ∧ r.1.err = false ∧ load ce.st P.path ≠ some P.chunks.flatten) ∧
+    (ce.kind = .failedChanged → r.2 = true ∧ r.1.err = true ∧ ce.st = kill r.1.fs ∧ load ce.st P.path ≠ P.old ∧
+      ¬ (renamed (traceUpTo P.steps P.path P.tmp P.chunks (faultsOf ce.fault) ce.k P.s0) = true ∧
+         load ce.st P.path = some P.chunks.flatten)) ∧
+    (ce.kind = .rerunFails →
+      (interp P.steps P.path P.tmp P.chunks noFaults ce.st).err = true ∨
+      load (interp P.steps P.path P.tmp P.chunks noFaults ce.st).fs P.path ≠ some P.chunks.flatten) := by
+  intro r
+  obtain ⟨hr, hv⟩ := search_sound P ce h
+  refine ⟨hr.crash, ?_, ?_, ?_, ?_⟩ <;> intro hk <;> simp only [CE.Violates, hk] at hv
+  · exact hv
+  · exact hv
+  · obtain ⟨h1, h2, h3, h4, h5⟩ := hv
+    refine ⟨h1, h2, ?_, h4, h5⟩
+    simp only [CE.Reachable, h3] at hr
+    exact hr
+  · exact hv
+
+open Lungo.AtomicSearch in
+/-- **search_ce_image.** The scenario printed with a counterexample is the one of its state: `ce.img = none` is
+    the process-kill image; `ce.img = some d` is the member of `crashImages` that keeps the pending directory
+    operations selected by `d.mask` and `d.len` of the temp inode's un-synced bytes (bit-flipped if `d.flipped`). -/
+theorem search_ce_image (P : Params) (ce : CE) (h : search P = some ce) :
+    let r := interpUpTo P.steps P.path P.tmp P.chunks (faultsOf ce.fault) ce.k P.s0
+    (ce.img = none → ce.st = kill r.1.fs) ∧
+    (∀ d, ce.img = some d → ce.st = crashImage r.1.fs d.mask (garbage r.1 d) ∧ ce.st ∈ crashImages r.1) := by
+  intro r
+  have hr := (search_sound P ce h).1
+  refine ⟨fun h0 => ?_, fun d hd => ?_⟩
+  · simp only [CE.Reachable, h0] at hr; exact hr
+  · simp only [CE.Reachable, hd] at hr; exact hr
+
+open Lungo.AtomicSearch in
+/-- **no_rename_keeps_old.** Meaning of the trace used by the `failedChanged` clause, for ANY step list run by
+    the search with a temp name distinct from the path: as long as the executed calls contain no successful
+    rename onto `path`, `path` still shows the old content (no other call of the vocabulary can change it). -/
+theorem no_rename_keeps_old (steps : List Step) (old : Option Bytes) (chunks : List Bytes) (stale : Bool)
+    (f : Faults) (k : Nat)
+    (h : renamed (traceUpTo steps 0 1 chunks f k (fsInit old stale)) = false) :
+    load (interpUpTo steps 0 1 chunks f k (fsInit old stale)).1.fs 0 = old := by
+  have := load_of_not_renamed (path := 0) (tmp := 1) (by decide) steps chunks f k (fsInit old stale) (keep_fsInit old stale) h
+  rw [load_fsInit] at this
+  exact this
+
+open Lungo.AtomicSearch in
+/-- the initial states of the search meet the hypothesis of the C05 theorems -/
+theorem fsInit_holds (old : Option Bytes) (stale : Bool) : DurablyHolds (fsInit old stale) 0 old := by
+  have hino : ∀ n i, (fsInit old stale).vdir n = some i → i < 2 := by
+    intro n i h
+    simp only [fsInit] at h
+    split at h
+    · split at h
+      · cases h; decide
+      · cases h
+    · split at h
+      · split at h
+        · cases h; decide
+        · cases h
+      · cases h
+  have hval : ValOK (fsInit old stale) (· = old) (if old.isSome then some 0 else none) := by
+    cases old with
+    | none => exact rfl
+    | some c => exact ⟨c, rfl, rfl⟩
+  exact ⟨⟨hino, hino, fun op hm => by cases hm⟩, ⟨hval, hval, fun op hm => by cases hm⟩⟩
+
+open Lungo.AtomicSearch in
+/-- **search_no_false_alarm.** On the EXPECTED protocol (temp name ≠ path) the search returns no counterexample —
+    for ALL old contents (or none), all new contents and splits into write calls, with or without a stale temp
+    file: the check cannot raise a `model-ce` violation unless the regenerated protocol differs from the
+    expected one.  (By `search_sound` every reported scenario would contradict `cut_base` / `master` /
+    `rerun_after_crash` / `load_of_not_renamed`.) -/
+theorem search_no_false_alarm (old : Option Bytes) (chunks : List Bytes) (stale : Bool) :
+    search (paramsOf Expected.atomicWriteSteps false ⟨old, chunks, stale⟩) = none := by
+  cases hs : search (paramsOf Expected.atomicWriteSteps false ⟨old, chunks, stale⟩) with
+  | none => rfl
+  | some ce =>
+    exfalso
+    obtain ⟨hr, hv⟩ := search_sound _ ce hs
+    have hne : (1 : Name) ≠ 0 := by decide
+    have hd := fsInit_holds old stale
+    have hb := cut_base hne (new := chunks.flatten) rfl (faultsOf ce.fault) hd ce.k
+    have hm := master hne (new := chunks.flatten) rfl (faultsOf ce.fault) hd.1 hd.2 ce.k
+    have hcr := hr.crash
+    change (ce.st = kill (interpUpTo prog 0 1 chunks (faultsOf ce.fault) ce.k (fsInit old stale)).1.fs ∨
+      Crash (interpUpTo prog 0 1 chunks (faultsOf ce.fault) ce.k (fsInit old stale)).1.fs ce.st) at hcr
+    cases hk : ce.kind with
+    | notOldOrNew =>
+      simp only [CE.Violates, hk] at hv
+      change (load ce.st 0 ≠ old ∧ load ce.st 0 ≠ some chunks.flatten) at hv
+      have : load ce.st 0 = old ∨ load ce.st 0 = some chunks.flatten := by
+        rcases hcr with e | hc
+        · rw [e]; exact hb.inv.kill_load
+        · exact hb.inv.crash_load hc
+      rcases this with e | e
+      · exact hv.1 e
+      · exact hv.2 e
+    | ackedLost =>
+      simp only [CE.Violates, hk] at hv
+      obtain ⟨h1, h2, h3⟩ := hv
+      have hp := ((hm.2.1 h1).ok h2).1
+      apply h3
+      change load ce.st 0 = some chunks.flatten
+      rcases hcr with e | hc
+      · rw [e]; exact hp.kill_load
+      · exact hp.crash_load hc
+    | failedChanged =>
+      simp only [CE.Violates, hk] at hv
+      obtain ⟨_, _, h3, h4, h5⟩ := hv
+      simp only [CE.Reachable, h3] at hr
+      change ce.st = kill (interpUpTo prog 0 1 chunks (faultsOf ce.fault) ce.k (fsInit old stale)).1.fs at hr
+      change load ce.st 0 ≠ old at h4
+      change ¬ (renamed (traceUpTo prog 0 1 chunks (faultsOf ce.fault) ce.k (fsInit old stale)) = true ∧
+        load ce.st 0 = some chunks.flatten) at h5
+      rw [hr] at h4 h5
+      cases hren : renamed (traceUpTo prog 0 1 chunks (faultsOf ce.fault) ce.k (fsInit old stale)) with
+      | false =>
+        apply h4
+        have := load_of_not_renamed hne prog chunks (faultsOf ce.fault) ce.k (fsInit old stale) (keep_fsInit old stale) hren
+        rw [load_fsInit] at this
+        exact this
+      | true =>
+        rcases hb.inv.kill_load with e | e
+        · exact h4 e
+        · exact h5 ⟨hren, e⟩
+    | rerunFails =>
+      simp only [CE.Violates, hk] at hv
+      change ((interp prog 0 1 chunks noFaults ce.st).err = true ∨
+        load (interp prog 0 1 chunks noFaults ce.st).fs 0 ≠ some chunks.flatten) at hv
+      have : (interp prog 0 1 chunks noFaults ce.st).err = false ∧
+          load (interp prog 0 1 chunks noFaults ce.st).fs 0 = some chunks.flatten := by
+        rcases hcr with e | hc
+        · have hkp := kill_preserves hb.wf hb.inv
+          rw [← e] at hkp
+          have c := clean_run_ok hne (chunks := chunks) (s := ce.st) rfl hkp.1 hkp.2
+          exact ⟨c.1, c.2.1.2.load_ok⟩
+        · have c := rerun_after_crash hne (faultsOf ce.fault) hd ce.k ce.st hc (chunks' := chunks) rfl
+          exact ⟨c.1, c.2.2⟩
+      rcases hv with e | e
+      · rw [this.1] at e; cases e
+      · exact e this.2
+
+open Lungo.AtomicSearch in
+/-- **search_expected_safe.** Instance of `search_no_false_alarm` at the concrete shapes `AtomicSearch.shapes`
+    which the stream's corpus fetches (driver op `fs.shapes`) and sends: the search answers "safe". -/
+theorem search_expected_safe :
+    ∀ sh ∈ shapes, (search (paramsOf Expected.atomicWriteSteps false sh)).isNone = true := by
+  intro sh _
+  rw [search_no_false_alarm sh.old sh.chunks sh.stale]
+  rfl
+
+/-! Non-vacuity / TESTS by kernel evaluation (`decide +kernel` on concrete parameters; these are tests, not
+    theorems): the search really explores states on the expected protocol, and the executable search agrees
+    with `search_no_false_alarm` on the first corpus shape. -/
+open Lungo.AtomicSearch in
+example : explored (paramsOf prog false ⟨some [1, 2, 3], [[9]], true⟩) = 755 := by decide +kernel
+open Lungo.AtomicSearch in
+example : (search (paramsOf prog false ⟨none, [[1, 2]], false⟩)).isNone = true := by decide +kernel
+
+/-! teeth of the search (kernel-evaluated examples): each mutated protocol of the section above yields a
+    counterexample of the expected kind on a corpus shape -/
+open Lungo.AtomicSearch in
+example : (search (paramsOf noFsyncSteps false ⟨some [1, 2, 3], [[9]], true⟩)).map (·.kind) = some .notOldOrNew := by decide +kernel
+open Lungo.AtomicSearch in
+example : (search (paramsOf renameFirstSteps false ⟨some [1, 2, 3], [[9]], true⟩)).map (·.kind) = some .notOldOrNew := by decide +kernel
+open Lungo.AtomicSearch in
+example : (search (paramsOf noDirSyncSteps false ⟨some [1, 2, 3], [[9]], true⟩)).map (·.kind) = some .ackedLost := by decide +kernel
+open Lungo.AtomicSearch in
+example : (search (paramsOf noRemoveSteps false ⟨some [1, 2, 3], [[9]], true⟩)).map (·.kind) = some .rerunFails := by decide +kernel
+open Lungo.AtomicSearch in
+/-- the expected calls applied IN PLACE (`tempPath := path`): the initial remove deletes the store file -/
+example : (search (paramsOf prog true ⟨some [1, 2, 3], [[9]], false⟩)).map (fun ce => (ce.kind, ce.k, ce.img)) =
+    some (.notOldOrNew, 1, none) := by decide +kernel
 
 end Lungo.C05
